@@ -1466,7 +1466,7 @@ class Body(RSTState):
 
     def parse_enumerator(
         self, match: Match[str], expected_sequence: Optional[str] = None
-    ) -> Tuple[str, str, str, int]:
+    ) -> Tuple[str, str, str, Optional[int]]:
         """
         Analyze an enumerator and return the results.
 
@@ -1512,13 +1512,17 @@ class Body(RSTState):
                     break
             else:  # shouldn't happen
                 raise ParserError("enumerator sequence not matched")
+        ordinal: Optional[int]
         if sequence == "#":
             ordinal = 1
         else:
             try:
                 ordinal = self.enum.converters[sequence](text)
-            except ValueError as err:
-                raise ParserError("Roman numeral error: " + str(err)) from err
+            except ValueError:
+                # Not a numeral we know ("xxi", "IC", an absurdly long number):
+                # as documented above, an invalid enumerator has no ordinal, which
+                # makes the callers treat the line as ordinary text.
+                ordinal = None
         return format, sequence, text, ordinal
 
     def is_enumerated_list_item(
@@ -2826,6 +2830,7 @@ class EnumeratedList(SpecializedBody, HaveBlankFinish):
         listitem, blank_finish = self.list_item(match.end())
         self.parent.append(listitem)
         self.blank_finish = blank_finish
+        assert ordinal is not None
         self.lastordinal: int = ordinal
         return [], next_state, []
 
